@@ -205,6 +205,59 @@ Proof.
     rewrite Hinert; [reflexivity|]. apply nth_In. exact Hi_al.
 Qed.
 
+(* ---------- `#define NAME(p1,...,pn) body` builds fmacro ---------- *)
+Lemma preproc_noops ps rest : forall fuel acc cat,
+  List.length rest < fuel -> forallb no_ops rest = true ->
+  preproc fuel true ps rest acc cat = Ok (acc ++ rest, cat).
+Proof.
+  induction rest as [|t r IH]; intros fuel acc cat Hf Hc; (destruct fuel as [|f]; [cbn in Hf; lia|]); cbn [preproc].
+  - now rewrite app_nil_r.
+  - cbn [forallb] in Hc. apply andb_true_iff in Hc. destruct Hc as [Ht Hr].
+    unfold no_ops in Ht. rewrite andb_true_iff, !negb_true_iff in Ht. destruct Ht as [H1 H2]. rewrite H2, H1.
+    rewrite IH; [now rewrite <- app_assoc|cbn in Hf; lia|assumption].
+Qed.
+
+Lemma no_ops_cat t : no_ops t = true -> is_txt "##" t = false.
+Proof. unfold no_ops. rewrite andb_true_iff, !negb_true_iff. tauto. Qed.
+
+Lemma macro_init_funlike n ps b :
+  forallb no_ops b = true -> macro_init n true ps false b = Ok (fmacro n ps b).
+Proof.
+  intros H. destruct b as [|t0 r0]; [reflexivity|]. unfold macro_init.
+  assert (Hc : forall x, In x (t0 :: r0) -> is_txt "##" x = false).
+  { intros x Hx. apply no_ops_cat. rewrite forallb_forall in H. now apply H. }
+  rewrite (Hc t0 (or_introl eq_refl)).
+  destruct (last_tok (t0 :: r0)) as [tl|] eqn:El.
+  2:{ unfold last_tok in El. cbn [rev] in El. destruct (rev r0); discriminate. }
+  rewrite (Hc tl (last_tok_In _ _ El)).
+  rewrite preproc_noops; [reflexivity|cbn; lia|exact H].
+Qed.
+
+Lemma ends_dots_strip_map ps : map tt (map arg_of (map PName ps)) = ps.
+Proof. induction ps as [|p r IH]; cbn; [reflexivity|]. now rewrite IH. Qed.
+
+Lemma wf_tail_names ps : (forall p, In p ps -> ends_dots p = false) -> wf_tail (map PName ps).
+Proof.
+  induction ps as [|p r IH]; intros H; [exact I|]. cbn [map wf_tail].
+  destruct r as [|q r']; cbn [map].
+  - cbn. apply H. now left.
+  - split; [cbn; apply H; now left|]. apply IH. intros x Hx. apply H. now right.
+Qed.
+
+Lemma pop_last_last {A} (l : list A) x : pop_last (l ++ [x]) = Some (l, x).
+Proof. unfold pop_last. rewrite rev_app_distr. cbn. now rewrite rev_involutive. Qed.
+
+Lemma define_line_fun n ps b :
+  ps <> [] -> (forall p, In p ps -> ends_dots p = false) -> forallb no_ops b = true ->
+  macro_from_define (head true n (Some (map PName ps)) ++ set_w_hd true b) = Ok (fmacro n ps b).
+Proof.
+  intros Hps Hdots Hno. rewrite define_head; [|now apply wf_tail_names|exact I].
+  cbn [args_of]. unfold make_macro. cbn [idt tt]. rewrite ends_dots_strip_map.
+  assert (Hv : match pop_last ps with Some (_, x) => ends_dots x | None => false end = false).
+  { destruct (exists_last Hps) as (l & x & ->). rewrite pop_last_last. apply Hdots. apply in_or_app. right. now left. }
+  rewrite Hv. rewrite macro_init_white. apply macro_init_funlike. exact Hno.
+Qed.
+
 Lemma forallb_filter_id {A} (f : A -> bool) l : forallb f l = true -> filter f l = l.
 Proof. induction l as [|x r IH]; cbn; [reflexivity|]. rewrite andb_true_iff. intros [-> H]. now rewrite IH. Qed.
 
@@ -818,5 +871,63 @@ Proof.
   2:{ destruct (fuel - n2) eqn:E; [lia|reflexivity]. }
   rewrite app_nil_r. f_equal. rewrite Hnames. fold d.
   rewrite (outs_corr lead cat_fix str_white resub_fix va_fix d items Hitems). reflexivity.
+Qed.
+
+(* ---------- the table as `#define` lines build it ---------- *)
+Definition define_line2 (f : fdef) : via * list tok :=
+  match f with
+  | FObj n b => define_line (n, b)
+  | FFun n ps b => (ViaDefine, head true n (Some (map PName ps)) ++ set_w_hd true b)
+  end.
+Definition params_plain (l : list fdef) : bool :=
+  forallb (fun f => match f with FFun _ ps _ => forallb (fun p => negb (ends_dots p)) ps | FObj _ _ => true end) l.
+
+Lemma flookup_fresh pre n rest : nodup_str (map fname pre ++ n :: rest) = true -> flookup pre n = None.
+Proof.
+  induction pre as [|g r IH]; cbn; [reflexivity|].
+  rewrite andb_true_iff, negb_true_iff. intros [Ha Hr].
+  destruct (String.eqb (fname g) n) eqn:E; [|now apply IH].
+  apply String.eqb_eq in E. exfalso.
+  assert (Hin : mem (fname g) (map fname r ++ n :: rest) = true).
+  { apply mem_spec. apply in_or_app. right. left. now symmetry. }
+  congruence.
+Qed.
+
+Lemma line_macro f : In f fs -> params_plain fs = true ->
+  macro_of (fst (define_line2 f)) (snd (define_line2 f)) = Ok (macro_of_fdef f).
+Proof.
+  intros Hin Hpp. pose proof (Hwf_each f Hin) as Hw.
+  destruct f as [n b|n ps b]; cbn [define_line2 define_line fst snd macro_of macro_of_fdef].
+  - apply define_line_macro. unfold wf_fdef in Hw. cbn [fname fbody] in Hw. rewrite !andb_true_iff in Hw.
+    destruct Hw as [[_ Hb] _]. now apply okf_okd_all.
+  - destruct (fun_facts n ps b Hin) as (Hb & Hps & Hnd & Hva & Hno & Hpar & Hne).
+    apply define_line_fun; try assumption.
+    intros p Hp. unfold params_plain in Hpp. rewrite forallb_forall in Hpp. specialize (Hpp _ Hin). cbn in Hpp.
+    rewrite forallb_forall in Hpp. specialize (Hpp p Hp). now apply negb_true_iff in Hpp.
+Qed.
+
+Lemma build2_acc fs0 : forall i pre,
+  nodup_str (map fname (pre ++ fs0)) = true ->
+  (forall f, In f fs0 -> macro_of (fst (define_line2 f)) (snd (define_line2 f)) = Ok (macro_of_fdef f)) ->
+  build_table i (map define_line2 fs0) (mtable2 pre) = inl (mtable2 (pre ++ fs0)).
+Proof.
+  induction fs0 as [|f r IH]; intros i pre Hnd Hm; cbn [map build_table].
+  - now rewrite app_nil_r.
+  - destruct (define_line2 f) as [v l] eqn:El. pose proof (Hm f (or_introl eq_refl)) as Hf. rewrite El in Hf. cbn [fst snd] in Hf.
+    rewrite Hf. unfold define.
+    assert (Hname : m_name (macro_of_fdef f) = fname f) by (destruct f; reflexivity).
+    rewrite Hname, get_mtable2. rewrite (flookup_fresh pre (fname f) (map fname r)).
+    2:{ rewrite map_app in Hnd. exact Hnd. }
+    cbn [option_map].
+    replace (mtable2 pre ++ [(fname f, macro_of_fdef f)]) with (mtable2 (pre ++ [f])).
+    2:{ unfold mtable2. now rewrite map_app. }
+    rewrite IH; [now rewrite <- app_assoc| |intros g Hg; apply Hm; now right]. now rewrite <- app_assoc.
+Qed.
+
+Lemma build2 : params_plain fs = true -> build_table 0 (map define_line2 fs) [] = inl (mtable2 fs).
+Proof.
+  intros Hpp. apply (build2_acc fs 0 []).
+  - unfold wf_fdefs in Hwf. apply andb_true_iff in Hwf. tauto.
+  - intros f Hf. now apply line_macro.
 Qed.
 End FunLike.
